@@ -20,6 +20,11 @@
 //	   encoding of the same point) completes with the TRUE peer key authenticated.
 //	I  interop with the reference implementation: the real side's frames decrypt under the reference and
 //	   vice versa (catches "symmetric" defects that a real<->real round trip cannot see).
+//	F  fault sequences of the sender's transport: every schedule of up to 2 (thorough 3) write errors over every
+//	   transport write of a short stream x bytes accepted before the error {0,1,600,1043,1044} x application
+//	   behaviour {next message, retry the rest}; oracle: no two frames that put bytes on the wire are sealed under
+//	   one nonce (decided with the reference implementation's keys, and key-free by c1^c2 == p1^p2), the real
+//	   receiver delivers only chunks the sender sealed, exactly like the reference receiver.
 package main
 
 import (
@@ -1275,6 +1280,329 @@ func partH() {
 }
 
 // ---------------------------------------------------------------------------------------------------------
+// Part F: fault sequences of the SENDER's transport (write errors after part of a frame already left)
+//
+// A short stream of messages is written through the real SecretConnection while the transport fails selected
+// Write calls after accepting 0 / 1 / 600 / all-but-one / all bytes of the sealed frame (every schedule of up
+// to 2 (thorough: 3) faults over every transport write of the stream); the application then either goes on
+// with the next message or retries the unsent rest. Oracles:
+//   - nonce discipline: the harness derives the session keys with the reference implementation (it knows the
+//     seeded ephemeral keys) and determines for every record that put bytes on the wire the set of nonces under
+//     which those bytes are a sealing of the plaintext written (complete frames: AEAD open; partial frames:
+//     ciphertext prefix). There must be an assignment of pairwise DIFFERENT nonces to the records: two frames on
+//     the wire under one key and nonce is keystream + Poly1305 key reuse (also checked key-free:
+//     c1 XOR c2 == p1 XOR p2 on the known plaintext), and gives an attacker two interchangeable frames.
+//   - the real receiver is fed exactly the bytes that left (then EOF): everything it ever delivers must be a
+//     concatenation, in order, of chunks whose frames were transmitted completely - never altered data.
+//   - io.Writer contract of Write: an error iff the transport failed, n = bytes of the chunks that went out.
+
+type frec struct {
+	msg, off int
+	chunk    []byte // plaintext chunk sealed into this frame
+	wire     []byte // the bytes of the sealed frame that reached the wire
+	faulted  bool
+}
+
+type fcase struct {
+	mode  string // "next-message" | "retry-rest"
+	idx   []int  // data transport-write numbers (0-based after the handshake), ascending
+	part  []int  // bytes accepted before the error
+	label string
+}
+
+var (
+	nFaultCases  atomic.Int64
+	nFaultFrames atomic.Int64
+)
+
+func fcases(nWrites int, menu []int, maxFaults int) []fcase {
+	var out []fcase
+	var rec func(start int, idx, part []int)
+	rec = func(start int, idx, part []int) {
+		if len(idx) > 0 {
+			for _, mode := range []string{"next-message", "retry-rest"} {
+				var l []string
+				for i := range idx {
+					l = append(l, fmt.Sprintf("write#%d:%dB", idx[i], part[i]))
+				}
+				out = append(out, fcase{mode, append([]int(nil), idx...), append([]int(nil), part...), "app=" + mode + " faults=" + strings.Join(l, ",")})
+			}
+		}
+		if len(idx) == maxFaults {
+			return
+		}
+		// retries add transport writes: one more index per fault already scheduled
+		for k := start; k < nWrites+len(idx); k++ {
+			for _, p := range menu {
+				rec(k+1, append(idx, k), append(part, p))
+			}
+		}
+	}
+	rec(0, nil, nil)
+	return out
+}
+
+// distinctNonces finds an assignment of pairwise different nonces to the records (small backtracking).
+func distinctNonces(cands [][]uint64, i int, used map[uint64]bool) bool {
+	if i == len(cands) {
+		return true
+	}
+	if cands[i] == nil {
+		return distinctNonces(cands, i+1, used)
+	}
+	for _, n := range cands[i] {
+		if !used[n] {
+			used[n] = true
+			if distinctNonces(cands, i+1, used) {
+				return true
+			}
+			delete(used, n)
+		}
+	}
+	return false
+}
+
+func partF() {
+	// violations are collected and reported smallest fault schedule first, so that the reported keys are stable
+	type fv struct {
+		nf     int
+		key    string
+		detail map[string]any
+	}
+	var fmu sync.Mutex
+	var fvs []fv
+	fviol := func(nf int, key string, detail map[string]any) {
+		fmu.Lock()
+		fvs = append(fvs, fv{nf, key, detail})
+		fmu.Unlock()
+	}
+	msgLens := []int{300, 2500, 1024, 10}
+	menu := []int{0, 1, 600, frameSize - 1, frameSize}
+	maxFaults := 2
+	if r.Thorough() {
+		maxFaults = 3
+	}
+	cs := fcases(expectedFrames(msgLens), menu, maxFaults)
+	r.Sample(map[string]any{"part": "F", "cases": len(cs), "message_lengths": msgLens, "partial_write_menu": menu, "examples": []string{cs[0].label, cs[len(cs)/2].label, cs[len(cs)-1].label}})
+	r.ParFor(len(cs), func(ci int) {
+		c := cs[ci]
+		key := "F/" + c.label
+		seed := fmt.Sprintf("F%d", ci%8)
+		sch := map[int]int{}
+		abs := map[int]int{}
+		for i, k := range c.idx {
+			sch[k] = c.part[i]
+			abs[hsRecords+k] = c.part[i]
+		}
+		s := live(seed, func(s *session) {
+			s.ab.SetPassLimit(hsLen, false) // forward the handshake, hold the data: the harness delivers it below
+			s.ab.SetWriteFaults(abs)
+			s.ab.SetReadPattern(transportPats[ci%6])
+		})
+		nLive.Add(1)
+		r.Eval()
+		defer func() { s.a.Close(); s.b.Close() }()
+		if s.A.err != nil || s.B.err != nil {
+			fviol(len(c.idx), key+" :handshake-failed", map[string]any{"errA": short(s.A.err), "errB": short(s.B.err)})
+			return
+		}
+		// ---- the sender application
+		var recs []frec
+		hit := 0
+		for mi, L := range msgLens {
+			data := stream(fmt.Sprintf("F/%d", mi), L)
+			for off := 0; off < L; {
+				before := len(s.ab.Records())
+				n, err := s.A.sc.Write(data[off:])
+				newRecs := s.ab.Records()[before:]
+				okBytes, faultSeen := 0, false
+				for j, w := range newRecs {
+					lo := off + j*frameData
+					hi := lo + frameData
+					if hi > L {
+						hi = L
+					}
+					if lo >= L {
+						fviol(len(c.idx), key+" :more-transport-writes-than-chunks", map[string]any{"message": mi})
+						return
+					}
+					_, f := sch[len(recs)]
+					recs = append(recs, frec{mi, lo, data[lo:hi], w, f})
+					if f {
+						faultSeen = true
+						hit++
+					} else {
+						okBytes += hi - lo
+					}
+				}
+				if (err != nil) != faultSeen || n != okBytes || (err == nil && n != L-off) {
+					fviol(len(c.idx), key+" :write-result", map[string]any{"message": mi, "offset": off, "n": n, "err": short(err), "transport_failed": faultSeen, "bytes_of_chunks_sent": okBytes})
+					return
+				}
+				if err == nil || c.mode == "next-message" {
+					break
+				}
+				off += n // retry the rest
+			}
+		}
+		if hit < len(c.idx) {
+			r.Outcome("F:schedule-not-fully-reached(same as a shorter schedule; not counted)")
+			return
+		}
+		nFaultCases.Add(1)
+		r.Distinct("F|" + c.label)
+		// ---- nonce discipline, decided with the reference implementation's keys
+		ref := newRef(nil, seed+"/B")
+		_, ref.rem = ephFromLabel(seed + "/A")
+		if err := ref.derive(); err != nil {
+			r.HarnessError("part F: reference key schedule: %v", err)
+		}
+		aead := ref.recv
+		all := s.ab.Recorded()
+		if _, err := aead.Open(nil, nonce(0), all[hsLen-frameSize:hsLen], nil); err != nil {
+			r.HarnessError("part F: the reference keys do not open the recorded handshake frame of session %s", seed)
+		}
+		maxN := uint64(len(recs) + 3)
+		cands := make([][]uint64, len(recs))
+		plains := make([][]byte, len(recs))
+		for i, fr := range recs {
+			known := 4 + len(fr.chunk)
+			P := make([]byte, 4+frameData)
+			binary.LittleEndian.PutUint32(P, uint32(len(fr.chunk)))
+			copy(P[4:], fr.chunk)
+			plains[i] = P[:known]
+			if len(fr.wire) == 0 {
+				continue
+			}
+			nFaultFrames.Add(1)
+			cands[i] = []uint64{}
+			for n := uint64(0); n <= maxN; n++ {
+				if len(fr.wire) == frameSize {
+					if pt, err := aead.Open(nil, nonce(n), fr.wire, nil); err == nil {
+						if !bytes.Equal(pt[:known], P[:known]) {
+							fviol(len(c.idx), key+" :frame-on-the-wire-seals-other-plaintext-than-written", map[string]any{"record": i, "nonce": n})
+							return
+						}
+						cands[i] = append(cands[i], n)
+					}
+				} else {
+					o := len(fr.wire)
+					if o > known {
+						o = known
+					}
+					if ct := aead.Seal(nil, nonce(n), P, nil); bytes.Equal(ct[:o], fr.wire[:o]) {
+						cands[i] = append(cands[i], n)
+					}
+				}
+			}
+			if len(cands[i]) == 0 {
+				fviol(len(c.idx), key+" :bytes-on-the-wire-are-not-a-sealing-of-the-written-chunk-under-any-nonce", map[string]any{"record": i, "bytes_on_wire": len(fr.wire), "nonces_tried": maxN + 1})
+				return
+			}
+		}
+		passive := ""
+		for i := range recs {
+			for j := i + 1; j < len(recs); j++ {
+				o := len(recs[i].wire)
+				for _, x := range []int{len(recs[j].wire), len(plains[i]), len(plains[j])} {
+					if x < o {
+						o = x
+					}
+				}
+				if o < 16 {
+					continue
+				}
+				same := true
+				for x := 0; x < o && same; x++ {
+					same = recs[i].wire[x]^recs[j].wire[x] == plains[i][x]^plains[j][x]
+				}
+				if same && passive == "" {
+					passive = fmt.Sprintf("records %d and %d: c1 XOR c2 == p1 XOR p2 on %d known bytes (no key needed)", i, j, o)
+				}
+			}
+		}
+		if !distinctNonces(cands, 0, map[uint64]bool{}) || passive != "" {
+			var desc []string
+			for i, fr := range recs {
+				desc = append(desc, fmt.Sprintf("#%d msg%d+%d wire=%dB fault=%v nonces=%v", i, fr.msg, fr.off, len(fr.wire), fr.faulted, cands[i]))
+			}
+			fviol(len(c.idx), key+" :two-frames-on-the-wire-sealed-under-one-nonce", map[string]any{"records": desc, "passive_observer": passive})
+			return
+		}
+		// ---- the real receiver gets exactly what left, then EOF
+		var wire []byte
+		total := 0
+		for _, fr := range recs {
+			wire = append(wire, fr.wire...)
+			total += len(fr.chunk)
+		}
+		s.ab.Inject(wire)
+		s.ab.CloseWrite()
+		got, err, after, stalled := readAll(s.B.sc, readerPats[(ci/6)%6], total+frameData)
+		if stalled {
+			fviol(len(c.idx), key+" :reader-stalled-or-overlong", map[string]any{"got": len(got)})
+			return
+		}
+		out := append(append([]byte(nil), got...), after...)
+		// (a) everything delivered is, in order, chunks the sender sealed and put (at least partly) on the wire. A
+		// partially transmitted frame counts: its missing tail bytes may coincide with the bytes that follow on the wire
+		// (1043 of 1044 bytes sent: 1 in 256), in which case the wire does carry the complete authentic frame.
+		pos, ndel := 0, 0
+		for _, fr := range recs {
+			if len(fr.wire) > 0 && pos < len(out) && bytes.HasPrefix(out[pos:], fr.chunk) {
+				pos += len(fr.chunk)
+				ndel++
+			}
+		}
+		if pos != len(out) {
+			fviol(len(c.idx), key+" :receiver-delivered-bytes-that-are-not-a-sequence-of-transmitted-chunks", map[string]any{"delivered": len(out), "explained": pos, "before_error": len(got), "err": short(err)})
+			return
+		}
+		// (b) and it is exactly what the reference receiver (frames of 1044 bytes, opened under the receive counter, which
+		// advances on success only) gets out of the same wire bytes
+		var exp []byte
+		recvN := uint64(1)
+		for off := 0; off+frameSize <= len(wire); off += frameSize {
+			if pt, err := aead.Open(nil, nonce(recvN), wire[off:off+frameSize], nil); err == nil {
+				if n := binary.LittleEndian.Uint32(pt); n <= frameData {
+					exp = append(exp, pt[4:4+n]...)
+				}
+				recvN++
+			}
+		}
+		if !bytes.Equal(out, exp) {
+			fviol(len(c.idx), key+" :receiver-output-differs-from-reference-receiver", map[string]any{"delivered": len(out), "reference": len(exp), "first_diff": firstDiff(out, exp), "err": short(err)})
+			return
+		}
+		cl := "F:" + c.mode + " delivered="
+		switch {
+		case ndel == len(recs):
+			cl += "every-sealed-chunk"
+		case ndel == 0:
+			cl += "nothing"
+		default:
+			cl += "some-chunks"
+		}
+		r.Outcome(cl + "->" + errClass(err))
+	})
+	sort.Slice(fvs, func(i, j int) bool {
+		if fvs[i].nf != fvs[j].nf {
+			return fvs[i].nf < fvs[j].nf
+		}
+		return fvs[i].key < fvs[j].key
+	})
+	for i, v := range fvs {
+		if i >= 12 {
+			break
+		}
+		viol(v.key, v.detail)
+	}
+	if len(fvs) > 0 {
+		r.OutcomeN("F:violating-fault-schedules", int64(len(fvs)))
+	}
+}
+
+// ---------------------------------------------------------------------------------------------------------
 
 func calibrate() bool {
 	s := live("calib", nil)
@@ -1311,13 +1639,17 @@ func main() {
 		fmt.Printf("part T done %.1fs (sessions %d)\n", time.Since(t0).Seconds(), nLive.Load())
 		partR()
 		fmt.Printf("part R done %.1fs (sessions %d)\n", time.Since(t0).Seconds(), nLive.Load())
+		partF()
+		fmt.Printf("part F done %.1fs (sessions %d, fault schedules %d)\n", time.Since(t0).Seconds(), nLive.Load(), nFaultCases.Load())
 	}
 	r.Assumptions = []string{
 		"confidentiality (ciphertext indistinguishability) is NOT decided by this check; only authentication, stream fidelity and tamper evidence are. Sanity observation only: plaintext windows found verbatim on the wire = " + fmt.Sprint(leakHits.Load()) + " of " + fmt.Sprint(leakProbe.Load()) + " probes",
 		"ephemeral keys come from a seeded replacement of crypto/rand.Reader (8 key sets per part, both orderings of the two ephemeral keys occur); ed25519, X25519, HKDF, ChaCha20-Poly1305 primitives and amino are trusted",
 		"in-flight flip of the top bit of the ephemeral X25519 key is an equivalent encoding of the same point (RFC 7748 masks it): accepted sessions are required to authenticate the true peer; recorded as its own outcome class",
 		"bit flips use bits {0,7} of every byte in quick and all 8 bits in thorough; truncation, drop subsets, permutations and replay insertions are complete for a 5-frame stream",
+		"part F: the transport fault is a Write call that accepts k bytes of the sealed frame and returns an error (k in {0,1,600,1043,1044}); up to 2 faults per stream in quick, 3 in thorough; the application either continues with the next message or retries the unsent rest; read-side faults and faults during the handshake are not enumerated",
 	}
-	r.Finish("R: lengths x writer chunkings x 36 (reader-buffer pattern, transport chunking) combos, both directions; T: every frame x byte x bit flip, every truncation offset, every drop subset, every permutation, every replay insertion, reflection and cross-session frames on a 5-frame stream; H: in-flight flips/truncations of the handshake, 12 low-order points, forged identity/signature (every bit), relay MITM, reflection, handshake replay; distinct = distinct (part, case parameters)",
-		true, map[string]any{"live_sessions": nLive.Load(), "data_frames_recorded": nFrames.Load(), "handshake_bytes_per_side": hsLen})
+	r.Finish("R: lengths x writer chunkings x 36 (reader-buffer pattern, transport chunking) combos, both directions; T: every frame x byte x bit flip, every truncation offset, every drop subset, every permutation, every replay insertion, reflection and cross-session frames on a 5-frame stream; H: in-flight flips/truncations of the handshake, 12 low-order points, forged identity/signature (every bit), relay MITM, reflection, handshake replay; F: every schedule of <=2 transport write faults (5 partial lengths) over every transport write of a 4-message/6-frame stream x 2 application behaviours, nonce uniqueness of everything on the wire decided with the reference keys + reference receiver; distinct = distinct (part, case parameters)",
+		true, map[string]any{"live_sessions": nLive.Load(), "data_frames_recorded": nFrames.Load(), "handshake_bytes_per_side": hsLen,
+			"fault_schedules": nFaultCases.Load(), "fault_schedule_records_with_bytes_on_wire": nFaultFrames.Load()})
 }
